@@ -2,7 +2,8 @@
 
 All sequences of up to 2 (thorough 3) redirections over {>f >>f 1>f 2>f 2>>f 2>&1 1>&2 >&2 <g <<<w} (two target files),
 spaced and attached, on an external program (alone and as first/middle/last stage of a three-stage pipeline) and on
-output-producing builtins (alias listing for stdout, unalias of a missing name for stderr, read for stdin), against
+output-producing builtins (alias listing for stdout, unalias of a missing name for stderr, read for stdin) and on an
+external program whose output is captured by "$(...)", against
 target files that are absent, present with content, or unopenable, followed by a second command that must be
 unaffected; executed by the real binary. Oracle: reference descriptor-table model applied left to right (open file
 descriptions with shared offsets for duplicated descriptors)."""
@@ -84,7 +85,7 @@ def model(redirs, files, out_text, err_text, default_stdin):
     return {'files': files, 'OUT': sink['OUT'], 'ERR': sink['ERR'], 'stdin': fds[0], 'failed': False}
 
 
-COMMANDS = ['ext', 'ext-first', 'ext-middle', 'ext-last', 'alias', 'unalias', 'read']
+COMMANDS = ['ext', 'ext-first', 'ext-middle', 'ext-last', 'alias', 'unalias', 'read', 'ext-captured']
 
 
 def build(cmd, redirs, spaced):
@@ -97,6 +98,9 @@ def build(cmd, redirs, spaced):
         core = 'vh-io A | vh-io T %s | vh-io C' % rs
     elif cmd == 'ext-last':
         core = 'vh-io A | vh-io B | vh-io T %s' % rs
+    elif cmd == 'ext-captured':
+        # output capture: the capture pipe takes the place of the inherited stdout, redirections apply on top of it
+        return ('alias q=r ; vh-argv2 "$(vh-io T %s)" ; vh-mark S 0 $? ; vh-io P' % rs).replace('  ', ' ')
     elif cmd == 'alias':
         core = 'alias %s' % rs
     elif cmd == 'unalias':
@@ -164,7 +168,7 @@ def expect(case, baseline):
         files.update(f1='UNOPENABLE', f2='UNOPENABLE', g=None)
     exp = {'io': {}, 'err_lines': [], 'out': ''}
     if cmd.startswith('ext'):
-        default_in = {'ext': 'shell-stdin\n', 'ext-first': 'shell-stdin\n', 'ext-middle': 'out:A\n', 'ext-last': 'out:B\n'}[cmd]
+        default_in = {'ext': 'shell-stdin\n', 'ext-first': 'shell-stdin\n', 'ext-middle': 'out:A\n', 'ext-last': 'out:B\n', 'ext-captured': 'shell-stdin\n'}[cmd]
         m = model(redirs, files, 'out:T\n', 'err:T\n', default_in)
     elif cmd == 'alias':
         m = model(redirs, files, baseline['alias_out'], '', None)
@@ -196,6 +200,8 @@ def compare(case, exp, obs, baseline):
         # unopenable target: the command must not run and the status must be non-zero
         if cmd.startswith('ext') and 'T' in obs['io']:
             return 'ran-despite-unopenable-target'
+        if cmd == 'ext-captured' and obs.get('read_value') != '':
+            return 'captured-text'
         if cmd in ('ext', 'ext-last', 'alias', 'unalias', 'read') and obs['qstatus'] in ('0', None):
             return 'zero-status-despite-unopenable-target'
         if cmd == 'alias' and baseline['alias_out'].strip() in obs['out']:
@@ -211,6 +217,16 @@ def compare(case, exp, obs, baseline):
         pass
     out_obs = obs['out'].replace('out:P\n', '', 1)
     err_obs = obs['err'].replace('err:P\n', '', 1)
+    if cmd == 'ext-captured':
+        if obs.get('read_value') != out_expected.rstrip('\n'):
+            return 'captured-text'
+        if out_obs != '':
+            return 'stdout-bytes'
+        if err_obs != err_expected:
+            return 'stderr-bytes'
+        if obs['io'].get('T') != m['stdin']:
+            return 'stdin-bytes'
+        return None
     if cmd in ('ext', 'alias', 'unalias', 'read'):
         if out_obs != out_expected:
             return 'stdout-bytes'
@@ -266,7 +282,7 @@ def cases(tier):
                     continue
                 if cmd in ('alias', 'unalias') and has_in:
                     continue
-                if n == 3 and cmd not in ('ext', 'alias', 'unalias'):
+                if n == 3 and cmd not in ('ext', 'alias', 'unalias', 'ext-captured'):
                     continue
                 if n == 2 and tier == 'quick' and cmd in ('ext-first', 'ext-last'):
                     continue
@@ -294,7 +310,7 @@ def run(rep, tier):
     rep.rule = ('all sequences of up to N redirections over %r x commands %r x spelling x initial file state; non-trivial = at least one redirection; '
                 'distinct = distinct (command line, file state)' % (REDIRS, COMMANDS))
     rep.assumptions = [
-        'descriptors 1 and 2 only, two target files, one input file; redirection combined with output capture is not covered',
+        'descriptors 1 and 2 only, two target files, one input file; output capture: an external program inside "$(...)" (the capture pipe takes the place of stdout)',
         'the external program writes its stdout line first and its stderr line second; lines of different stages on a shared stderr are compared as a multiset',
         'builtin texts (alias listing, unalias diagnostic) are taken from a run without redirection',
     ]
